@@ -223,8 +223,30 @@ func (e *Env) runWorker(plan *simrt.WorkerPlan) (res []simrt.CallResult, ended b
 	if err := os.WriteFile(pp, raw, 0o644); err != nil {
 		return nil, false, -1, "", machinery("write plan: %v", err)
 	}
-	ctx, cancel := context.WithTimeout(context.Background(), workerWatchdog)
+	// the watchdog looks at PROGRESS: the worker flushes one line per finished call, and a plan
+	// in which many calls run into their (deterministic) step budget legitimately takes long
+	ctx, cancel := context.WithCancel(context.Background())
 	defer cancel()
+	stalled := false
+	go func() {
+		last, lastSize := time.Now(), int64(-1)
+		start := time.Now()
+		for {
+			select {
+			case <-ctx.Done():
+				return
+			case <-time.After(time.Second):
+			}
+			if fi, err := os.Stat(op); err == nil && fi.Size() != lastSize {
+				last, lastSize = time.Now(), fi.Size()
+			}
+			if time.Since(last) > workerWatchdog || time.Since(start) > 12*workerWatchdog {
+				stalled = true
+				cancel()
+				return
+			}
+		}
+	}()
 	cmd := exec.CommandContext(ctx, e.Harness, "-plan", pp, "-out", op)
 	cmd.Env = []string{"GOMAXPROCS=" + gomaxprocsForWorker(), "GOTRACEBACK=single"}
 	if e.CoverDir != "" {
@@ -235,8 +257,8 @@ func (e *Env) runWorker(plan *simrt.WorkerPlan) (res []simrt.CallResult, ended b
 	cmd.Stdout = nil
 	e.procs.Add(1)
 	runErr := cmd.Run()
-	if ctx.Err() != nil {
-		return nil, false, -1, "", machinery("worker watchdog (%v) expired", workerWatchdog)
+	if stalled {
+		return nil, false, -1, "", machinery("worker watchdog expired (no finished call for %v)", workerWatchdog)
 	}
 	if ee := (*exec.ExitError)(nil); runErr != nil && errors.As(runErr, &ee) && ee.ExitCode() == 97 {
 		return nil, false, -1, "", machinery("worker protocol error: %s", se.String())
